@@ -75,8 +75,13 @@ class Spec(BFSSpec):
         import pandas as pd
 
         out = []
-        for name, order, labels in (("list4", [0, 1, 2, 3], [0, 1, 2, 3]), ("list4-permuted-gapped-index", [2, 0, 3, 1], [7, 0, 12, 3])):
-            df = frame([self.rows[i] for i in order])
+        PER_AXIS = ["score", "x", "shift_x", "phi", "y", "shift_y", "theta", "z", "shift_z", "psi", "geom1", "geom2", "subtomo_id", "tomo_id",
+                    "object_id", "subtomo_mean", "geom3", "geom4", "geom5", "class"]
+        for name, order, labels, cols in (("list4", [0, 1, 2, 3], [0, 1, 2, 3], None),
+                                          ("list4-permuted-gapped-index", [2, 0, 3, 1], [7, 0, 12, 3], None),
+                                          ("list2-tomogram-2-only", [2, 3], [0, 1], None),           # one tomogram, not the table's first row
+                                          ("list4-per-axis-column-order", [0, 1, 2, 3], [0, 1, 2, 3], PER_AXIS)):
+            df = frame([self.rows[i] for i in order], columns=cols)
             df.index = labels  # what sort_values / remove_feature / reset_index=False leave behind
             m = cm.Motl(df)
             p, R = pose_of(m.df)
@@ -149,6 +154,8 @@ class Spec(BFSSpec):
             raise ValueError(op)
         df1 = m.df
         okshape = sorted(df1.columns) == sorted(COLS) and len(df1) == len(df0)
+        if okshape and list(df1.columns) != list(df0.columns):
+            df1 = df1[list(df0.columns)]
         obs.check(okshape, site, "table-shape", lambda: f"columns {list(df1.columns)} rows {len(df1)}")
         if not okshape:
             return None
